@@ -21,7 +21,7 @@ def need(fx, fid):
 def run(ctx):
     fx = ctx.facts("default")
     order.use_facts(fx)
-    fixtures.run(ctx, ['order', 'taint', 'trunc', 'arithmul', 'dropwrite', 'varint'])
+    fixtures.run(ctx, ['order', 'taint', 'trunc', 'arithmul', 'dropwrite', 'varint', 'openguard'])
     R = "R-ORDER"
     f = need(fx, MV + "resize_to_capacity")
     ctx.analysed_fns.add(f.id)
@@ -62,7 +62,7 @@ def run(ctx):
     f = need(fx, MV + "open")
     ctx.analysed_fns.add(f.id)
     openguard.check(ctx, f, r"::capacity$|MmapVecHeader::capacity|file_size_from_header|calculate_file_size",
-                    r"fs::Metadata::len$|MmapAllocation::size$|fs::metadata$")
+                    r"fs::Metadata::len$|MmapAllocation::size$|fs::metadata$", fx=fx)
     ctx.instance("R-GUARD.open.sites")
     ctx.floor("R-GUARD.open.sites", 1)
     # validate_header must be on every successful open path
